@@ -21,6 +21,17 @@ class Unsupported(Exception):
     pass
 
 
+class Overflow(Exception):
+    """an amount-free sub-term is not representable in the decimal type: the operation panics for every amount"""
+
+
+def chk(v, what):
+    from .magn import THRESH
+    if abs(v) >= THRESH:
+        raise Overflow("%s = %.3g is not representable in the decimal amount type (fpdec: 'Internal representation exceeded')" % (what, float(v)))
+    return v
+
+
 def analyse(t, consts, amounts):
     """consts: {canon term: Fraction}, amounts: set of canon terms (symbolic).
     -> ('c', act, true) | ('l', coef_act, coef_true, abs_err)"""
@@ -43,7 +54,7 @@ def analyse(t, consts, amounts):
                 raise Unsupported("division by a zero constant")
             act = a[1] * b[1] if h == "*" else a[1] / b[1]
             tru = a[2] * b[2] if h == "*" else a[2] / b[2]
-            return ("c", round18(act), tru)
+            return ("c", round18(chk(act, T.show(t))), tru)
         if h == "*" and a[0] == "c" and b[0] == "l":
             a, b = b, a
         if a[0] == "l" and b[0] == "c":
@@ -109,7 +120,7 @@ def analyse_poly(t, consts, amounts):
                 raise Unsupported("division by a zero constant")
             act = x * u if h == "*" else x / u
             tru = y * v if h == "*" else y / v
-            return Poly({zero: (round18(act), tru)}, Fraction(0))
+            return Poly({zero: (round18(chk(act, T.show(t))), tru)}, Fraction(0))
         if h == "*" and a.is_const() and not b.is_const():
             a, b = b, a
         if b.is_const() and len(b.monos) == 1:
